@@ -23,6 +23,7 @@ static llvm::cl::opt<bool> Tolerant("tolerant", llvm::cl::desc("record unsupport
 static llvm::cl::list<std::string> RootsMangled("root-mangled", llvm::cl::desc("sanitised mangled name of root function"), llvm::cl::cat(Cat));
 static llvm::cl::list<std::string> Outline("outline", llvm::cl::desc("<sanitised mangled name>#<loop ordinal>: also emit a step function for that loop"), llvm::cl::cat(Cat));
 static llvm::cl::list<std::string> TransparentRec("transparent-std-record", llvm::cl::desc("prefix of std record names lowered field by field"), llvm::cl::cat(Cat));
+static llvm::cl::list<std::string> TransparentFn("transparent-std-fn", llvm::cl::desc("prefix of qualified names of std functions lowered from their libstdc++ bodies"), llvm::cl::cat(Cat));
 static llvm::cl::opt<std::string> OutC("out", llvm::cl::desc("output C file"), llvm::cl::cat(Cat));
 static llvm::cl::opt<std::string> OutJson("json", llvm::cl::desc("output JSON index"), llvm::cl::cat(Cat));
 static llvm::cl::opt<bool> Catalogue("catalogue", llvm::cl::desc("emit the class catalogue into the JSON index"), llvm::cl::cat(Cat));
@@ -103,6 +104,7 @@ struct Lower {
     if (auto* PT = T->getAs<PointerType>()) {
       QualType P = PT->getPointeeType().getCanonicalType();
       if (P->isFunctionType()) throw Unsupported{"function pointer type"};
+      if (P->isArrayType()) return declare(P, "(*" + name + ")", false);
       return declare(P, "*" + name, false);
     }
     if (auto* AT = C.getAsConstantArrayType(T)) {
@@ -187,11 +189,12 @@ struct Lower {
     globalDecls += "extern " + declare(T, g) + "; /* " + VD->getQualifiedNameAsString() + " */\n";
     bool isConst = T.isConstQualified() || T->isReferenceType() || VD->isConstexpr();
     std::string init; bool haveInit = false;
-    if (isConst && VD->hasInit() && !VD->getInit()->isValueDependent()) {
+    if ((isConst || VD->isStaticLocal()) && VD->hasInit() && !VD->getInit()->isValueDependent()) {
       if (const APValue* V = VD->evaluateValue()) {
         try { init = apv(*V, T); haveInit = true; } catch (Unsupported& u) { init = "/* " + u.what + " */"; }
       }
-    }
+      if (!haveInit && VD->isStaticLocal()) throw Unsupported{"static local with dynamic initialisation: " + VD->getQualifiedNameAsString()};
+    } else if (VD->isStaticLocal() && !VD->hasInit()) { init = "{0}"; haveInit = true; if (!T->isRecordType() && !T->isArrayType()) init = "0"; }
     if (haveInit) globalDefs += declare(T, g) + " = " + init + ";\n";
     globalJson.push_back("{\"name\": \"" + g + "\", \"qualified\": \"" + jsonEsc(VD->getQualifiedNameAsString()) + "\", \"const\": " + (isConst ? "true" : "false") + ", \"defined\": " + (haveInit ? "true" : "false") + ", \"type\": \"" + jsonEsc(T.getAsString()) + "\"}");
     return T->isReferenceType() ? "(*" + g + ")" : g;
@@ -267,8 +270,18 @@ struct Lower {
     if (!Tolerant) return exImpl(E);
     try { return exImpl(E); } catch (Unsupported& u) { UnsupportedLog[u.what].insert(curFn ? curFn->getQualifiedNameAsString() : "?"); return "UNSUPPORTED"; }
   }
+  // value of E is discarded (expression statement, for-increment, left operand of a comma)
+  bool discardTop = false;
+  std::string exDiscard(const Expr* E) {
+    const Expr* I = E->IgnoreParens();
+    if (auto* W = dyn_cast<ExprWithCleanups>(I)) I = W->getSubExpr()->IgnoreParens();
+    if (auto* B = dyn_cast<BinaryOperator>(I)) if (B->isAssignmentOp()) { discardTop = true; std::string r = ex(B); discardTop = false; return r; }
+    if (auto* U = dyn_cast<UnaryOperator>(I)) if (U->isIncrementDecrementOp()) { discardTop = true; std::string r = ex(U); discardTop = false; return r; }
+    return ex(E);
+  }
   std::string exImpl(const Expr* E) {
     E = E->IgnoreParens();
+    bool dt = discardTop; discardTop = false;
     if (auto* X = dyn_cast<ExprWithCleanups>(E)) return ex(X->getSubExpr());
     if (E->isPRValue() && !E->isValueDependent() && E->getType()->isIntegralOrEnumerationType() && !isa<IntegerLiteral>(E) && !isa<CXXBoolLiteralExpr>(E)) {
       Expr::EvalResult R;
@@ -290,7 +303,13 @@ struct Lower {
       return "(*(" + declareAbstract(S->getType()) + "[]){" + ex(S) + "})";
     }
     if (auto* X = dyn_cast<CXXBindTemporaryExpr>(E)) return ex(X->getSubExpr());
-    if (auto* X = dyn_cast<IntegerLiteral>(E)) return llvm::toString(X->getValue(), 10, X->getType()->isSignedIntegerType());
+    if (auto* X = dyn_cast<IntegerLiteral>(E)) {
+      std::string v = llvm::toString(X->getValue(), 10, X->getType()->isSignedIntegerType());
+      if (auto* BT = X->getType()->getAs<BuiltinType>()) switch (BT->getKind()) {
+        case BuiltinType::UInt: return v + "U"; case BuiltinType::Long: return v + "L"; case BuiltinType::ULong: return v + "UL";
+        case BuiltinType::LongLong: return v + "LL"; case BuiltinType::ULongLong: return v + "ULL"; default: break; }
+      return v;
+    }
     if (auto* X = dyn_cast<CXXBoolLiteralExpr>(E)) return X->getValue() ? "1" : "0";
     if (isa<CXXNullPtrLiteralExpr>(E)) return "((void*)0)";
     if (isa<CXXThisExpr>(E)) return lambdaThis.empty() ? "self" : lambdaThis;
@@ -316,6 +335,7 @@ struct Lower {
     }
     if (auto* X = dyn_cast<ArraySubscriptExpr>(E)) return "(" + ex(X->getBase()) + ")[" + ex(X->getIdx()) + "]";
     if (auto* X = dyn_cast<UnaryOperator>(E)) {
+      bool wasDiscard = dt;
       std::string s = ex(X->getSubExpr());
       switch (X->getOpcode()) {
         case UO_AddrOf: return "(&" + s + ")";
@@ -323,15 +343,25 @@ struct Lower {
         case UO_LNot: return "(!" + s + ")";
         case UO_Minus: return "(-" + s + ")";
         case UO_Not: return "(~" + s + ")";
-        case UO_PreInc: return "(++" + s + ")";
-        case UO_PreDec: return "(--" + s + ")";
+        case UO_PreInc: case UO_PreDec: {
+          std::string op = X->getOpcode() == UO_PreInc ? "++" : "--";
+          if (!X->isGLValue() || wasDiscard) return "(" + op + s + ")";
+          std::string pt = declareAbstract(C.getPointerType(X->getSubExpr()->getType())), t = "__a" + std::to_string(tmpId++);
+          return "(*({ " + pt + " " + t + " = &(" + s + "); " + op + "*" + t + "; " + t + "; }))";
+        }
         case UO_PostInc: return "(" + s + "++)";
         case UO_PostDec: return "(" + s + "--)";
         default: throw Unsupported{"unary op"};
       }
     }
     if (auto* X = dyn_cast<BinaryOperator>(E)) {
-      if (X->getOpcode() == BO_Comma) return "(" + ex(X->getLHS()) + ", " + ex(X->getRHS()) + ")";
+      if (X->getOpcode() == BO_Comma) return "(" + exDiscard(X->getLHS()) + ", " + ex(X->getRHS()) + ")";
+      if (X->isAssignmentOp() && X->isGLValue() && !dt) {
+        // in C++ an assignment is an lvalue designating its left operand; in C it is not
+        std::string pt = declareAbstract(C.getPointerType(X->getLHS()->getType())), t = "__a" + std::to_string(tmpId++);
+        return "(*({ " + pt + " " + t + " = &(" + ex(X->getLHS()) + "); *" + t + " " + X->getOpcodeStr().str() + " " + ex(X->getRHS()) + "; " + t + "; }))";
+      }
+
       return "(" + ex(X->getLHS()) + " " + X->getOpcodeStr().str() + " " + ex(X->getRHS()) + ")";
     }
     if (auto* X = dyn_cast<ConditionalOperator>(E)) {
@@ -505,7 +535,7 @@ struct Lower {
           throw Unsupported{"devirtualised to a class below the static type"};
       }
       if (OC->getDefinition() != MD->getParent()->getDefinition()) self = upcast(self, OC, MD->getParent());
-      if (isStd(MD) && !transparentStd.count(MD->getDefinition())) return stdcall(MD, self, X, 0);
+      if (stdOpaqueFn(MD)) return stdcall(MD, self, X, 0);
       args.push_back(self);
     } else if (auto* OC_ = dyn_cast<CXXOperatorCallExpr>(X)) {
       if (auto* MD0 = dyn_cast<CXXMethodDecl>(FD)) if ((MD0->isCopyAssignmentOperator() || MD0->isMoveAssignmentOperator()) && MD0->isTrivial())
@@ -520,12 +550,12 @@ struct Lower {
           if (!Dev) return virtcall(MD, self, X, 1);
           if (Dev->getParent()->getDefinition() != MD->getParent()->getDefinition()) throw Unsupported{"devirtualised operator in another class"};
         }
-        if (isStd(MD) && !transparentStd.count(MD->getDefinition() ? MD->getDefinition() : MD)) return stdcall(MD, self, X, 1);
+        if (stdOpaqueFn(MD)) return stdcall(MD, self, X, 1);
         args.push_back(self);
         firstParamArg = 1;
       }
     }
-    if (isStd(FD) && !transparentStd.count(FD->getDefinition() ? FD->getDefinition() : FD)) return stdcall(FD, "", X, firstParamArg);
+    if (stdOpaqueFn(FD)) return stdcall(FD, "", X, firstParamArg);
     for (unsigned i = firstParamArg; i < X->getNumArgs(); ++i)
       args.push_back(arg(X->getArg(i), FD->getParamDecl(i - firstParamArg)->getType()));
     std::string s = fn(FD) + "(";
@@ -558,6 +588,13 @@ struct Lower {
   }
   static std::string jsonEsc(const std::string& s) { std::string r; for (char ch : s) { if (ch == '"' || ch == '\\') { r += '\\'; r += ch; } else if (ch == '\n') r += "\\n"; else r += ch; } return r; }
   std::map<std::string, std::set<std::string>> calls;
+  bool stdOpaqueFn(const FunctionDecl* FD) {
+    if (!isStd(FD)) return false;
+    if (transparentStd.count(FD->getDefinition() ? FD->getDefinition() : FD)) return false;
+    std::string q = FD->getQualifiedNameAsString();
+    for (auto& p : TransparentFn) if (q.rfind(p, 0) == 0 && FD->getDefinition() && FD->getDefinition()->hasBody()) return false;
+    return true;
+  }
   std::string upcast(const std::string& ptr, const CXXRecordDecl* from, const CXXRecordDecl* to) {
     CXXBasePaths Paths(true, true, false);
     if (!from->getDefinition()->isDerivedFrom(to->getDefinition(), Paths)) throw Unsupported{"upcast: not derived"};
@@ -686,7 +723,7 @@ struct Lower {
       for (auto* D : X->decls()) {
         auto* VD = dyn_cast<VarDecl>(D);
         if (!VD) { if (isa<TypedefNameDecl>(D) || isa<UsingDecl>(D) || isa<CXXRecordDecl>(D)) continue; throw Unsupported{"decl kind"}; }
-        if (VD->isStaticLocal()) throw Unsupported{"static local variable"};
+        if (VD->isStaticLocal()) { global(VD); continue; }   /* becomes a C global; listed in the JSON index as (mutable) static state */
         std::string d = declare(VD->getType(), vn(VD));
         QualType VT = VD->getType().getCanonicalType();
         if (VD->hasInit() && (VT->isRecordType() || VT->isArrayType())) { r += I + d + ";\n" + initLv(vn(VD), VT, VD->getInit(), I); continue; }
@@ -732,7 +769,7 @@ struct Lower {
       if (X->getConditionVariable()) throw Unsupported{"for with condition variable"};
       if (X->getInit()) r += st(X->getInit(), ind + 1);
       maybeOutline(X, X->getCond(), X->getBody(), X->getInc(), loopOrd);
-      std::string hd = std::string((ind+1)*2,' ') + "for (; " + (X->getCond() ? ex(X->getCond()) : "1") + "; " + (X->getInc() ? ex(X->getInc()) : "") + ")\n" + loopAnn(ind+1);
+      std::string hd = std::string((ind+1)*2,' ') + "for (; " + (X->getCond() ? ex(X->getCond()) : "1") + "; " + (X->getInc() ? exDiscard(X->getInc()) : "") + ")\n" + loopAnn(ind+1);
       if (inStep) ++stepNest; std::string bd = st(X->getBody(), ind + 2); if (inStep) --stepNest;
       return r + hd + bd + I + "}\n";
     }
@@ -755,7 +792,7 @@ struct Lower {
     if (isa<BreakStmt>(S)) return (inStep && stepNest == 0) ? I + "return 0;\n" : I + "break;\n";
     if (isa<ContinueStmt>(S)) return (inStep && stepNest == 0) ? I + "goto __step_continue;\n" : I + "continue;\n";
     if (isa<GotoStmt>(S) || isa<LabelStmt>(S) || isa<CXXTryStmt>(S) || isa<CoroutineBodyStmt>(S)) throw Unsupported{std::string("stmt ") + S->getStmtClassName()};
-    if (auto* X = dyn_cast<Expr>(S)) return I + ex(X) + ";\n";
+    if (auto* X = dyn_cast<Expr>(S)) return I + exDiscard(X) + ";\n";
     throw Unsupported{std::string("stmt ") + S->getStmtClassName()};
   }
   int loopOrd = 0;
@@ -796,7 +833,7 @@ struct Lower {
       if (Cond) b += "  if (!(" + ex(Cond) + ")) return 0;\n";
       b += st(Body, 1);
       b += "  __step_continue: ;\n";
-      if (Inc) b += "  " + ex(Inc) + ";\n";
+      if (Inc) b += "  " + exDiscard(Inc) + ";\n";
       b += "  return 1;\n}\n";
       inStep = false; loopOrd = savedOrd; loopMacros = savedMacros; varName = saved;
       outlined += "/* outlined body of loop " + std::to_string(ord) + " of " + curFn->getQualifiedNameAsString() + " */\n" + b + "\n";
